@@ -26,6 +26,10 @@ checks = {
  "C09": dict(engine="e1", cat="model_checking",
    text="In(x) for every state x evaluated at every content position and in guards of every small statechart (rfsm-expression and null data model) against the reference configuration; early/late binding families; scripted scenarios reading every _event field back for every event kind and attempting every write to the system variables",
    note="ecmascript data model not enumerated (it is not part of the core-feature harness build); _event read-back uses a reference-free oracle (the received event object)", tech=E1),
+ "C12": dict(engine="e1", cat="model_checking",
+   text="deviation-bounded enumeration: a conformant base document with one oddity at a time (thorough: every ordered pair) from 70 oddities covering unknown/malformed targets and types, missing parent, unstartable invokes and an erroring expression in every attribute that takes one, each driven by 8 external events and then cancelled on a real session; thread alive and idle after every event, required error event class observed, no child thread panic, locks unpoisoned, cancel works",
+   note="one base document shape; oddity list is fixed (harness/src/bin/e1.rs oddities()); hang detection by 15 s watchdog",
+   tech="deviation-bounded exhaustive enumeration (0, 1, 2 oddities) of documents x event sequence on the real interpreter with a liveness/robustness oracle"),
  "C19": dict(engine="e1", cat="model_checking",
    text="all descriptor lists (1-2 descriptors of 1-2 tokens, all spellings) x all event names of 1-3 tokens over an alphabet with shared prefixes, multi-byte characters, empty tokens and case variants, executed on real sessions and compared with a token-prefix oracle",
    note="alphabet-bounded; matching observed through the selected-transition trace of a parallel probe document",
